@@ -78,3 +78,25 @@ package gateway
 //@   at call newGatewaySource#1 assert kind: parentGroup == gatewayGroup && parentKind == gatewayKind
 //@   at call newGatewaySource#1 assert ns:   $arg1 == ((parentRef.Namespace != nil && *parentRef.Namespace != "") ? *parentRef.Namespace : routeSource.namespace)
 //@ end
+
+// ---------------------------------------------------------------------------
+// C06 — routes are processed in (creation time, namespace/name) order, never
+// in the order the API returned them
+
+//@ spec func objLess(a client.Object, b client.Object) bool = (a.GetCreationTimestamp() != b.GetCreationTimestamp() && instant(a.GetCreationTimestamp().Time) < instant(b.GetCreationTimestamp().Time)) || (a.GetCreationTimestamp() == b.GetCreationTimestamp() && a.GetNamespace() + "/" + a.GetName() < b.GetNamespace() + "/" + b.GetName())
+
+//@ func sortHTTPRoutes
+//@   props C06
+//@   requires nonnil: forall a int :: 0 <= a && a < len(httpRoutesSource) ==> httpRoutesSource[a] != nil
+//@   modifies httpRoutesSource[*]
+//@   ensures sorted: forall a int, b int :: 0 <= a && a < b && b < len(httpRoutesSource) ==> !objLess(httpRoutesSource[b].obj, httpRoutesSource[a].obj)
+//@   ensures keeps:  forall a int :: 0 <= a && a < len(httpRoutesSource) ==> httpRoutesSource[a] != nil
+//@ end
+
+//@ func sortTCPRoutes
+//@   props C06
+//@   requires nonnil: forall a int :: 0 <= a && a < len(tcpRoutesSource) ==> tcpRoutesSource[a] != nil
+//@   modifies tcpRoutesSource[*]
+//@   ensures sorted: forall a int, b int :: 0 <= a && a < b && b < len(tcpRoutesSource) ==> !objLess(tcpRoutesSource[b].obj, tcpRoutesSource[a].obj)
+//@   ensures keeps:  forall a int :: 0 <= a && a < len(tcpRoutesSource) ==> tcpRoutesSource[a] != nil
+//@ end
